@@ -10,7 +10,7 @@ def panicProj (r : Result) (s : String) : String := if r.panic.isSome then "pani
 /-- (failing instances on a result, projection of a result) for one property -/
 def evalProp (prop : String) (p : Program) (r : Result) (linksOk : Bool) : List String × String :=
   match PropId.ofString prop with
-  | some id => (failingOf id p r linksOk, panicProj r (projOf id r))
+  | some id => (failingOf id p r linksOk ++ failingExtra id r, panicProj r (projOf id r))
   | none => (["unknown-property"], panicProj r "")
 
 /-- C20 on the implementation: the flags of the native round trips (harness `X` line) -/
